@@ -339,6 +339,21 @@ Section Steps.
     done_sim. apply Forall2_set_nth; assumption.
   Qed.
 
+  Lemma step_update_reader i data script : step_ok (OpUpdateReader i data script).
+  Proof.
+    start. get_h i x h En Hn HR.
+    destruct ((si_off x =? 0) && (len (si_bytes x ++ data) <? 2 ^ 64)) eqn:Eg; [|discriminate].
+    apply andb_true_iff in Eg. destruct Eg as [E0 El]. apply N.eqb_eq in E0. apply N.ltb_lt in El.
+    destruct HR as [Hoff HI]. rewrite E0 in HI.
+    destruct (update_reader_refines p POK K F (HK m Hm) h (si_bytes x) data script HI El) as (h' & r & Hu & HI' & Hr).
+    rewrite Hu. cbn [bind].
+    destruct (snd (IoP.delivered (copy_fuel data script) data script)) as [|k|] eqn:Ed; [| |discriminate].
+    - injection Hs as <- <-. subst r. done_sim. apply Forall2_set_nth; [assumption|].
+      split; cbn [si_off si_bytes]; [exact Hoff|]. rewrite E0. exact HI'.
+    - injection Hs as <- <-. subst r. done_sim. apply Forall2_set_nth; [assumption|].
+      split; cbn [si_off si_bytes]; [exact Hoff|]. rewrite E0. exact HI'.
+  Qed.
+
   Lemma step_finalize i : step_ok (OpFinalize i).
   Proof.
     start. get_h i x h En Hn HR.
@@ -567,7 +582,7 @@ Section Steps.
     - apply step_new.
     - apply step_update.
     - apply step_write.
-    - intros ms ss ss' out _ Hs. discriminate Hs.
+    - apply step_update_reader.
     - apply step_finalize.
     - apply step_xof.
     - apply step_count.
